@@ -152,6 +152,14 @@ impl GitDiff {
 
         let mut staged_files = HashSet::new();
         for entry in index.entries() {
+            // Only regular files are tracked: a symbolic link or submodule entry has no
+            // counterpart in `head_paths` and would otherwise always look staged.
+            if !matches!(
+                entry.mode,
+                gix::index::entry::Mode::FILE | gix::index::entry::Mode::FILE_EXECUTABLE
+            ) {
+                continue;
+            }
             let path_str = String::from_utf8_lossy(entry.path(&index)).to_string();
             let path = PathBuf::from(&path_str);
 
